@@ -14,7 +14,7 @@ import os
 import shutil
 
 from mon import refbufr as R
-from mon import handover
+from mon import handover, midscan
 from mon import nested
 from mon.compare import td_of, opsig
 from mon.gen import cases
@@ -180,6 +180,31 @@ def scramble(o, depth=0):
             if not isinstance(o[k], (list, dict)):
                 o[k] = 'edited-by-the-caller'
         o['edited'] = True
+
+
+def judge_formats(kind, m, exp, opts):
+    """C09's oracle for a message delivered / decoded in the middle of other work: the other three formats convert back to the flat
+    JSON form (a message decoded without the wiring option - or with it switched off by the caller - is wired first, as a caller would)"""
+    from pybufrkit.renderer import FlatJsonRenderer, NestedJsonRenderer, FlatTextRenderer, NestedTextRenderer
+    from pybufrkit import utils
+    if kind != 'full':
+        return None
+    if opts.get('wire_template_data') is False:
+        m.wire()
+    dumps = lambda o: json.dumps(o, cls=utils.EntityEncoder)
+    fj = json.loads(dumps(FlatJsonRenderer().render(m)))
+    nvals = sum(len(x) for x in fj[-2][-1]) if isinstance(fj[-2][-1], list) else 0
+    for name, fn in (('nested-json', lambda: utils.nested_json_to_flat_json(json.loads(dumps(NestedJsonRenderer().render(m))))),
+                     ('flat-text', lambda: utils.flat_text_to_flat_json(FlatTextRenderer().render(m))),
+                     ('nested-text', lambda: utils.nested_text_to_flat_json(NestedTextRenderer().render(m)))):
+        try:
+            conv = fn()
+        except Exception as e:
+            return ('%s-to-flat-raises:%s' % (name, type(e).__name__), '%s -> flat raises %s' % (name, type(e).__name__))
+        d = first_diff(norm(conv), fj)
+        if d:
+            return ('%s-converted-back-differs' % name, '%s converted back differs from the flat JSON at %r (%d values in the flat form)' % (name, d[0], nvals))
+    return None
 
 
 def check_message(ctx, m, enc, spec, sigctx, ids, want_encode=True):
@@ -518,6 +543,15 @@ def run(ctx):
                 ctx.count('hostile_string_cases')
             spec = dict(origin='random', ids=ids, compressed=comp, nsub=msg.nsub, mtv=mtv, hex=msg.bytes.hex())
             check_message(ctx, m, enc, spec, 'c' if comp else 'u', ids, want_encode=(q % 3 == 0))
+            recent = ctx.__dict__.setdefault('_c09_recent', [])
+            if len(msg.bytes) < 3000:
+                recent.append((msg.bytes, None))
+            if len(recent) >= 6:
+                ctx.count('mid_scan_blocks')
+                if ctx.counters['mid_scan_blocks'] % (3 if ctx.quick else 2) == 1:
+                    from pybufrkit.decoder import Decoder
+                    midscan.scenarios(ctx, 'formats', Decoder, recent[:3], recent[3:6], judge_formats, dict(origin='mid-scan'))
+                del recent[:]
             if q % 97 == 1:
                 cli_roundtrip(ctx, msg.bytes, dict(spec, cli=True), scratch, 'r%d' % q)
     finally:
